@@ -119,7 +119,7 @@ func c12(c *Ctx) {
 			c.Violation("R2", key, at(ax.M, fn.Pos()), "the limiter is not consulted with the filtered attributes against this aggregator's own values map")
 			continue
 		}
-		held := le.HeldAt(fn, callNode)[varKey(fn.Recv())+sp.mu]
+		held := le.HeldAt(fn, callNode)[varKey(fn.Recv())+resolvePath(ax.Pkg, sp.typ, sp.mu)]
 		good, why := true, ""
 		n := 0
 		inspectNoLit(fn.Body(), func(nd ast.Node) bool {
@@ -142,7 +142,7 @@ func c12(c *Ctx) {
 		{
 			g := ax.FG(fn)
 			a := g.NodeOf(callNode)
-			mu := varKey(fn.Recv()) + sp.mu
+			mu := varKey(fn.Recv()) + resolvePath(ax.Pkg, sp.typ, sp.mu)
 			for _, x := range g.Nodes {
 				as, ok := x.N.(*ast.AssignStmt)
 				if !ok {
